@@ -5,6 +5,8 @@ opaque user code that may return or unwind, ordering-domain comparisons) forks t
 fork-free run ends in an *outcome* (normal return / unwinding out of the root frame / abort).
 No gc-arena code is executed: the machine runs on abstract values only (object ids with a colour /
 live / needs-trace record, enum variants, references to abstract places, opaque symbols)."""
+import os
+import sys
 import collections
 
 from gcv.model import norm
@@ -699,6 +701,8 @@ class Interp:
         work = [st0]
         seen = set()
         floor = len(st0.frames) - 1
+        total = 0
+        cap = self.max_steps * TOTAL_STEPS_FACTOR
         while work:
             st = work.pop()
             while True:
@@ -706,6 +710,13 @@ class Interp:
                     break
                 fr = st.frames[-1]
                 self.step_budget(st)
+                total += 1
+                if total > cap:
+                    # every single path is within its budget but their number is not: a fork per iteration of a loop
+                    # that never closes (fail closed - the caller reports "could not interpret")
+                    raise InterpError("step budget exceeded (all paths of one run together)")
+                if total > MAX_TOTAL_SEEN[0]:
+                    MAX_TOTAL_SEEN[0] = total
                 if fr.kind == "glue":
                     nxt = self.step_glue(st, fr, floor, outcomes)
                 else:
@@ -1165,6 +1176,13 @@ class Interp:
 
 
 NONNEG_TERMS = set()
+# one run (all its paths together) may take this many times the per-path step budget; the largest run on the
+# unchanged tree is printed with GCV_DEBUG_STEPS=1 (measured: see DESIGN.md §10.3, fourth session)
+TOTAL_STEPS_FACTOR = 150
+MAX_TOTAL_SEEN = [0]
+if os.environ.get("GCV_DEBUG_STEPS"):
+    import atexit
+    atexit.register(lambda: open(os.environ["GCV_DEBUG_STEPS"], "a").write("%d %s\n" % (MAX_TOTAL_SEEN[0], " ".join(sys.argv[1:3]))))
 
 
 def sign_of(t, depth=0):
